@@ -20,7 +20,7 @@ def run(tier, seed):
                 'DeviceFinder: the lookup relation target -> helper is a ghost map updated by every System.add of the call')
     items = [(G.group_add('C19'),), (G.get_next_idx('C19'),), (G.one_idx2uid('C19'),), (G.group_idx2uid('C19'),),
              (G.modeldata_add('C19'),), (G.idxparam_add('C19'),), (G.system_add('C19'),), (G.find_or_add('C19'), None, G.replay_find_or_add),
-             (G.set_backref_model('C19'),)]
+             (G.set_backref_model('C19'),), (G.collect_ref_links('C19'), None, G.replay_collect_ref)]
     run_contracts(pack, items)
     bounded(pack, tier)
     return pack.finish()
